@@ -201,6 +201,8 @@ def check_tags(ctx, prog, tags):
 
 def var_risk(f, p):
     t = T(f, p['t'])
+    if 'initializer_list<asl::Var::Obj>' in (t.get('s') or ''):
+        return True           # the entries of an object literal hold `const Var&`: `v = {{"k", v["k"]}}` refers into the receiver
     if not t.get('ref'):
         return False
     return T(f, t.get('to')).get('rec') == 'asl::Var'
